@@ -34,14 +34,22 @@ def record_compile(ptn, L, idoid, chains, phys=None):
     og = ptn.opgraph
     tr = [dict(ev='chains', L=L, idoid=idoid, chains=chains, padded=[])]
     try:
-        for c in chains:
-            oc = ptn.OpChain(list(c['oids']), list(c['qnums']), float(c['coeff']), c['istart'])
-            pc = oc.padded(L, idoid)
-            shifted = ptn.OpChain(list(c['oids']), list(c['qnums']), float(c['coeff']), c['istart'] + 1)
-            tr[0]['padded'].append(dict(oids=[int(x) for x in pc.oids], qnums=[int(x) for x in pc.qnums], istart=int(pc.istart),
-                                        coeff=snap_int(pc.coeff, what='coeff'),
-                                        eq_self=bool(oc == ptn.OpChain(list(c['oids']), list(c['qnums']), float(c['coeff']), c['istart'])),
-                                        eq_shifted=bool(oc == shifted)))
+        # direct probe of OpChain.padded / __eq__ (strict-only clauses of TChains; if the probe cannot be made the list stays empty)
+        try:
+            probe = []
+            for c in chains:
+                oc = ptn.OpChain(list(c['oids']), list(c['qnums']), float(c['coeff']), c['istart'])
+                pc = oc.padded(L, idoid)
+                shifted = ptn.OpChain(list(c['oids']), list(c['qnums']), float(c['coeff']), c['istart'] + 1)
+                probe.append(dict(oids=[int(x) for x in pc.oids], qnums=[int(x) for x in pc.qnums], istart=int(pc.istart),
+                                  coeff=snap_int(pc.coeff, what='coeff'),
+                                  eq_self=bool(oc == ptn.OpChain(list(c['oids']), list(c['qnums']), float(c['coeff']), c['istart'])),
+                                  eq_shifted=bool(oc == shifted)))
+            tr[0]['padded'] = probe
+        except OffLattice:
+            raise
+        except Exception:
+            tr[0]['padded'] = []
         def mk_part(orig):
             def part(hcs, coeffs):
                 g = None
@@ -96,7 +104,7 @@ def record_compile(ptn, L, idoid, chains, phys=None):
     return tr
 
 
-def random_phys_case(rng, L):
+def random_phys_case(rng, L, zeros=0.35):
     """charge-consistent chains over a small operator alphabet with integer matrices"""
     d = rng.choice([2, 2, 3])
     qd = list(range(d)) if rng.random() < 0.7 else [0] * d
@@ -133,6 +141,18 @@ def random_phys_case(rng, L):
         c = dict(rng.choice(chains))
         c['coeff'] = -c['coeff'] if rng.random() < 0.5 else rng.choice([1, 2])
         chains.append(c)
+    if rng.random() < zeros:
+        # chains with an exactly vanishing coefficient (sparse integrals): isolated, in adjacent runs, spanning the whole lattice
+        for _ in range(rng.randint(1, 2)):
+            run = []
+            for _ in range(rng.randint(1, 3)):
+                c = dict(rng.choice(chains))
+                if rng.random() < 0.4:
+                    c = dict(oids=[0] * L, qnums=[0] * (L + 1), coeff=0, istart=0)
+                c['coeff'] = 0
+                run.append(c)
+            k = rng.randint(0, len(chains))
+            chains[k:k] = run
     return dict(L=L, idoid=0, chains=chains, phys=dict(qd=qd, opmap=opmap))
 
 
